@@ -125,7 +125,8 @@ fn gen_fresh_case(cur: &mut Cursor) -> Value {
 pub fn gen_transposition_case(cur: &mut Cursor) -> Value {
     let (p, src) = gen_position(cur);
     let sel: Vec<u8> = (0..4).map(|_| cur.u8()).collect();
-    json!({"fen": p.fen(), "src": src, "sel": sel, "half2": cur.u16(), "full2": cur.u16()})
+    let case = json!({"fen": p.fen(), "src": src, "sel": sel, "half2": cur.u16(), "full2": cur.u16()});
+    crate::common::with_twin(cur, case)
 }
 
 fn transposition_check(case: &Value, stats: &mut Stats) -> CheckResult {
